@@ -205,3 +205,9 @@ def run(ctx):
                        fmain.where, found=T.show(path['data'], maxdepth=3))
             if filtered:
                 ob.require(T.is_op(path['data'][2], 'GENERATE'), 'the filter is applied to the generated wallet data', fmain.where)
+    # the filter is switched by args.paranoia: it must be what the user gave (one parse of the full argument vector), and
+    # every emitting call - not only the first one reached - must get the filtered data
+    from .C20 import check_namespace, all_sink_calls
+    check_namespace(ctx, 'C15.FLAGSOURCE(=C20.NAMESPACE)')
+    from .C20 import check_onesink
+    check_onesink(ctx, 'C15.EVERYSINK(=C20.ONESINK)')
